@@ -15,7 +15,7 @@ ID = "C04"
 LEVEL = "model_checking"
 LEVEL_TEXT = ("Explicit-state exploration of the address space on the real Bus/Address objects: every (bus, address) "
               "state of the stated set (thorough: all 2^24 addresses of both built-in buses) and every `+n` transition "
-              "from it is executed and compared with an independent bus model; a complete lattice of 324 `.map` "
+              "from it is executed and compared with an independent bus model; a complete lattice of 432 `.map` "
               "configurations is explored the same way through both construction routes. The domain is finite, so within "
               "the bound this is a complete decision, which eight unit tests probing four addresses cannot give.")
 LEVEL_NOTE = ("Trusted: mc/ref/bus.py (40 lines of arithmetic written from the property statement). Below-window addresses "
@@ -39,10 +39,10 @@ INCS = [0, 1, 2, 3, 0xFF, 0x100, 0x7FFF, 0x8000, 0x8001, 0xFFFF, 0x10000, 0x1000
 
 
 def bound(tier):
-    return ("all 2^24 addresses x 2 built-in buses; advance from every in-window ROM address x 12 increments; "
-            "324 .map configurations x 2 construction routes" if tier == "thorough" else
-            "boundary address set of every bank x 2 built-in buses; advance x 12 increments + 144 (m,n) pairs; "
-            "324 .map configurations x 2 construction routes")
+    return ("all 2^24 addresses x 3 built-in ROM types; advance from every in-window ROM address x 12 increments; "
+            "432 .map configurations x 2 construction routes" if tier == "thorough" else
+            "boundary address set of every bank x 3 built-in ROM types; advance x 12 increments + 144 (m,n) pairs; "
+            "432 .map configurations x 2 construction routes")
 
 
 # ---- configuration lattice -------------------------------------------------------------
@@ -50,7 +50,7 @@ def bound(tier):
 def lattice():
     cfgs = []
     for first, count, size, mirror, ram, two in itertools.product(
-            (0x00, 0x40, 0x80), (1, 2, 0x30), (0x8000, 0x10000), ("none", "plus80", "disjoint"), (False, True, "mirrored"),
+            (0x00, 0x40, 0x80), (1, 2, 0x30), (0x8000, 0x10000), ("none", "plus80", "disjoint"), (False, True, "mirrored", "ram32k"),
             (False, True)):
         last = first + count - 1
         if mirror == "none":
@@ -66,7 +66,11 @@ def lattice():
             decls.append(("3", (0xF0, 0xF3), 0x10000 if size == 0x8000 else 0x8000, False, None))
         if ram:
             # RAM range, optionally with its own mirror banks (mirror of RAM is RAM: no file offset, plain +n)
-            decls.append(("2", (0x7E, 0x7F), 0x10000, True, (0xEE, 0xEF) if ram == "mirrored" else None))
+            if ram == "ram32k":
+                # battery-backed RAM the LoROM way: 32K windows in banks 70-7D (RAM advances by plain +n whatever the window)
+                decls.append(("2", (0x70, 0x7D), 0x8000, True, None))
+            else:
+                decls.append(("2", (0x7E, 0x7F), 0x10000, True, (0xEE, 0xEF) if ram == "mirrored" else None))
         cfgs.append(decls)
     return cfgs
 
@@ -109,7 +113,7 @@ def builtin_real(name):
 # ---- case enumeration ------------------------------------------------------------------
 
 def cases(tier, seed):
-    for name in ("low_rom", "high_rom"):
+    for name in ("low_rom", "high_rom", "low_rom_2"):
         for bank in range(256):
             yield ("addr", name, bank, tier)
         for bank in range(256):
@@ -264,7 +268,7 @@ def run_case(case):
     if kind in ("addr", "adv"):
         _, name, bank, tier = case
         real = builtin_real(name)
-        ref = refbus.BUILTIN[name]()
+        ref = refbus.BUILTIN["low_rom" if name == "low_rom_2" else name]()  # low2 = the LoROM layout addressed through its mirror banks
         r = ref.bank.get(bank)
         win_lo, size = (r.win_lo, r.size) if r else (0, 0x10000)
         if kind == "addr":
